@@ -166,6 +166,14 @@ def build(ift, s, dom):
         md = ift.MultiDomain.make({kk: mk_dom(ift, v[0]) for kk, v in s[1].items()})
         ops = {kk: build(ift, v[1], md[kk]) for kk, v in s[1].items() if v[1] is not None}
         return ift.BlockDiagonalOperator(md, ops)
+    if k == "mdscal":
+        # ScalingOperator(MultiDomain, f, sampling_dtype={key: dtype}); the dict is given in the listed
+        # (not necessarily alphabetical) order
+        md = ift.MultiDomain.make({kk: mk_dom(ift, n_) for kk, n_, _ in s[2]})
+        dt = {kk: np_dtype(d_) for kk, _, d_ in s[2]}
+        if s[3]:                                   # one dtype for all keys instead of a dict
+            dt = np_dtype(s[2][0][2])
+        return ift.ScalingOperator(md, s[1], dt)
     if k == "mdsum":
         # summands on (overlapping) sub-MultiDomains of {key: RGSpace(npix)}: likelihood-metric style
         # sandwiches  (sum_k w_k FieldAdapter_k)^H cheese (sum_k w_k FieldAdapter_k)  and block-diagonals
@@ -397,6 +405,56 @@ def mdsum_family():
     return out
 
 
+def adapter_family():
+    """every run: operators whose mode flips go through OperatorAdapter (sandwich, block-diagonal,
+    InversionEnabler, SamplingEnabler) under .inverse / .adjoint / .adjoint.inverse / .inverse.adjoint,
+    forward and inverse draws: the direction must flip exactly when the INVERSE bit is set"""
+    out = []
+    for dt in ("f", "c"):
+        sand = ["sandwich", ["diagbun", [2.0, 0.5, 4.0]], ["diag", [4.0, 0.25, 16.0], None, dt], None]
+        sand2 = ["sandwich", ["fftshift"], ["diag", [1.0, 4.0, 16.0], None, dt], None]
+        sand3 = ["sandwich", ["matrix", [[1.0, 2.0, 0.0], [0.0, 1.0, 0.0], [1.0, 0.0, 2.0]]], ["scal", 4.0, 0.0, dt], None]
+        blk = ["block", {"a": [2, ["diag", [4.0, 16.0], None, dt]], "b": [1, ["scal", 0.25, 0.0, dt]]}]
+        inven = ["inven", sand]
+        sampen = ["sampen", ["sandwich", ["mask", [False, True, False]], ["diag", [4.0, 1.0], None, dt], None],
+                  ["diag", [16.0, 0.25, 1.0], None, dt], 0]
+        for base, n in ((sand, 3), (sand2, 3), (sand3, 3), (blk, 3), (inven, 3), (sampen, 3)):
+            for w in (["inverse"], ["adjoint"], ["adjoint", "inverse"], ["inverse", "adjoint"], ["inverse", "inverse", "adjoint"]):
+                sp = base
+                for k in reversed(w):
+                    sp = [k, sp]
+                for inv in (False, True):
+                    out.append({"n": n, "spec": sp, "inv": inv})
+    return out
+
+
+def mdscal_family():
+    """every run: ScalingOperator on a MultiDomain with a dict of sampling dtypes, mixed real/complex,
+    listed in and out of alphabetical order: every key gets a sample of ITS dtype"""
+    out = []
+    for order in (["a", "b", "c"], ["c", "a", "b"], ["b", "c", "a"], ["b", "a"]):
+        for pat in (["f", "c", "f"], ["c", "f", "c"], ["c", "c", "f"]):
+            ent = [[kk, 1 + (ord(kk) - ord("a")) % 2, pat[i % len(pat)]] for i, kk in enumerate(order)]
+            for f in (4.0, 0.25):
+                for inv in (False, True):
+                    out.append({"n": sum(e[1] for e in ent), "spec": ["mdscal", f, ent, False], "inv": inv})
+    out.append({"n": 3, "spec": ["mdscal", 4.0, [["b", 2, "c"], ["a", 1, "c"]], True], "inv": False})
+    out.append({"n": 3, "spec": ["mdscal", 4.0, [["b", 2, "f"], ["a", 1, None]], False], "inv": False})
+    return out
+
+
+def imag_mask(spec):
+    """for operators with a per-key sampling dtype: which entries (sorted keys) are complex; else None"""
+    if spec[0] == "mdscal" and not spec[3]:
+        m = []
+        for kk, n_, d_ in sorted(spec[2], key=lambda e: e[0]):
+            m += [d_ == "c"] * n_
+        return np.array(m, dtype=float)
+    if spec[0] in ("inverse", "adjoint", "inven"):
+        return imag_mask(spec[1])
+    return None
+
+
 def has_zero_scaling(s):
     if isinstance(s, list):
         if s and s[0] == "scal" and s[1] == 0.0:
@@ -490,6 +548,18 @@ def read(ift, op):
     from nifty.cl.operators.operator_adapter import OperatorAdapter
     from nifty.cl.operators.sum_operator import SumOperator
     t = type(op).__name__
+    if isinstance(op, ift.ScalingOperator) and isinstance(op.domain, ift.MultiDomain):
+        # from_random(MultiDomain, dtype) draws key by key (sorted) with dtype[key]
+        c = complex(op._factor)
+        if not exact_sqrt(c.real):
+            raise Unreadable("variance is not a power of 4")
+        ent = []
+        for kk in op.domain.keys():
+            dtk = op._dtype[kk] if isinstance(op._dtype, dict) else op._dtype
+            if isinstance(op._dtype, dict) and dtk is None:
+                dtk = np.float64      # only `self._dtype is None` is refused; a None entry reaches numpy, where dtype None means float64
+            ent.append("(%d, Some (CScal Qc %s %s %s))" % (op.domain[kk].size, cq(c.real), "true" if c.imag != 0 else "false", cdt(dtk)))
+        return "(CBlock Qc %s)" % cl(ent)
     if isinstance(op, ift.ScalingOperator):
         c = complex(op._factor)
         if not exact_sqrt(c.real):
@@ -580,6 +650,8 @@ def expect_ok(s, inv):
         return (not inv) and all(expect_ok(o, False) for o in s[1])
     if k == "block":
         return all(v[1] is not None and expect_ok(v[1], inv) for v in s[1].values())
+    if k == "mdscal":
+        return all(d_ is not None for _, _, d_ in s[2]) and s[1] >= 0 and not (s[1] == 0 and inv)
     if k == "mdsum":
         if inv:
             return False
@@ -755,8 +827,26 @@ class C13(C.Check):
         Tr, Ti = T.real, T.imag
         if np.abs(Ti).max(initial=0) != 0 and not close(Tr @ Ti.T, np.zeros((T.shape[0], T.shape[0])), tol):
             return ("covariance", "real and imaginary part of the sample are correlated")
+        mask = imag_mask(c["spec"])
+        if mask is not None:
+            # per-key sampling dtypes: the imaginary part lives exactly on the complex keys, with the
+            # covariance restricted to them; real keys have no imaginary part
+            if np.abs(Ti[mask == 0]).max(initial=0) != 0:
+                return ("dtype", "a key with a real sampling dtype received a complex sample")
+            if not (mask == 0).all() and np.abs(Ti[mask == 1]).max(initial=0) == 0:
+                return ("dtype", "a key with a complex sampling dtype received a real sample")
+            sub = mask == 1
+            if sub.any():
+                covi = (Ti @ Ti.T)[np.ix_(sub, sub)]
+                want = Cm.real[np.ix_(sub, sub)]
+                if bool(c["inv"]) == have_times:
+                    ok = close(covi @ want, np.eye(covi.shape[0]), tol * 10)      # scalings are block-diagonal per key
+                else:
+                    ok = close(covi, want, tol)
+                if not ok:
+                    return ("covariance", "imaginary part of the complex keys has the wrong covariance")
         covs = [Tr @ Tr.T]
-        if np.abs(Ti).max(initial=0) != 0:
+        if mask is None and np.abs(Ti).max(initial=0) != 0:
             covs.append(Ti @ Ti.T)
         for cov in covs:
             if bool(c["inv"]) == have_times:
@@ -786,7 +876,7 @@ class C13(C.Check):
         import nifty.cl as ift
         self.ift = ift
         rng = ctx.rng(13)
-        todo = [c for c in ctx.corpus()] + zero_family() + mdsum_family()
+        todo = [c for c in ctx.corpus()] + zero_family() + mdsum_family() + adapter_family() + mdscal_family()
         for _ in range(220 if ctx.quick else 2500):
             todo.append(json.loads(json.dumps(gen_case(rng))))
         self.cases = []
@@ -817,7 +907,7 @@ class C13(C.Check):
         res.coverage.update({
             "evaluations": len(self.cases), "modelled_cases_compared_in_coq": len(checks),
             "distinct_nontrivial": distinct,
-            "rule": "random operator expressions (depth <= 2) plus a systematic family of semi-definite and positive scalings/diagonals under every mode flip (all four _trafo values) x dtype x direction, over scaling / diagonal (full, partial-space, .inverse/.adjoint, real and complex sampling dtype, missing dtype, zero / negative / complex entries) / sandwiches (matrix, invertible diagonal, scaling, expanding, masking buns; cheese or sampling_dtype) / sums (also of summands on overlapping sub-MultiDomains, e.g. block covariances on {a,b} and {b,c}) / block-diagonals (with missing keys) / adapters / InversionEnabler / SamplingEnabler, forward and inverse draws; non-trivial = anything but a bare scaling; distinct by JSON",
+            "rule": "random operator expressions (depth <= 2) plus a systematic family of semi-definite and positive scalings/diagonals under every mode flip (all four _trafo values) x dtype x direction, over scaling / diagonal (full, partial-space, .inverse/.adjoint, real and complex sampling dtype, missing dtype, zero / negative / complex entries) / sandwiches (matrix, invertible diagonal, scaling, expanding, masking buns; cheese or sampling_dtype) / scalings on MultiDomains with per-key sampling dtypes (dict in any order) / operators flipped through OperatorAdapter (.inverse, .adjoint, .adjoint.inverse, .inverse.adjoint of sandwiches, blocks, enablers) / sums (also of summands on overlapping sub-MultiDomains, e.g. block covariances on {a,b} and {b,c}) / block-diagonals (with missing keys) / adapters / InversionEnabler / SamplingEnabler, forward and inverse draws; non-trivial = anything but a bare scaling; distinct by JSON",
             "samples": [o["case"] for o in self.cases[:3]],
             "input_distribution": {"top_level_kind": kinds, "outcome": outcomes},
             "disagreements": len(bad),
